@@ -18,6 +18,7 @@ mod c12;
 mod c13;
 mod c14;
 mod c15;
+mod c19;
 mod core;
 mod ev;
 mod vgen;
@@ -76,6 +77,11 @@ fn main() {
             let ls = lifts(&args);
             let thorough = args.iter().any(|a| a == "--thorough");
             let cli = opt(&args, "--cli");
+            if prop == "c19" {
+                let out = c19::replay_all(&cases, cli.as_deref().expect("--cli"));
+                write_out(&args[4], &out);
+                return;
+            }
             let setup: J = opt(&args, "--setup").map(|p| serde_json::from_str(&std::fs::read_to_string(p).unwrap()).unwrap()).unwrap_or(J::Null);
             let out: Vec<J> = cases
                 .iter()
